@@ -44,7 +44,7 @@ type c16State struct {
 
 // route is an independent reading of which repository a request path addresses ("" = none).
 func c16Route(rawPath string) string {
-	u, err := url.Parse(rawPath)
+	u, err := url.ParseRequestURI(rawPath)
 	if err != nil {
 		return ""
 	}
